@@ -476,6 +476,22 @@ class IRExec:
                 raise Unsupported("strcmp operands")
             lit = self.mod.strings[b.base][b.off:]
             return z3.If(a[1] == z3.StringVal(lit), z3.IntVal(0), z3.IntVal(1))
+        if fn == "strncmp":
+            a = self.val(args[0][0], args[0][1])
+            b = self.val(args[1][0], args[1][1])
+            n = self.val(args[2][0], args[2][1])
+            if isinstance(b, tuple):
+                a, b = b, a
+            if not (isinstance(a, tuple) and a[0] == "strarg" and isinstance(b, Ptr) and z3.is_int_value(n)):
+                raise Unsupported("strncmp operands")
+            k = n.as_long()
+            lit = self.mod.strings[b.base][b.off:]
+            if k > len(lit):
+                # the terminating NUL takes part in the comparison: exact match
+                return z3.If(a[1] == z3.StringVal(lit), z3.IntVal(0), z3.IntVal(1))
+            return z3.If(z3.SubString(a[1], 0, k) == z3.StringVal(lit[:k]), z3.IntVal(0), z3.IntVal(1))
+        if fn in ("strlen",):
+            raise Unsupported("strlen")
         vals = [self.val(t, a) for t, a in args]
         one = {"exp": "exp", "log": "log", "sin": "sin", "cos": "cos", "tan": "tan", "asin": "asin",
                "acos": "acos", "atan": "atan", "sqrt": "sqrt", "fabs": "abs", "floor": "floor"}
